@@ -1,4 +1,7 @@
 use std::sync::Arc;
+#[cfg(feature = "verif_hooks")]
+use crate::verif_sync::RwLock;
+#[cfg(not(feature = "verif_hooks"))]
 use tokio::sync::RwLock;
 
 use emmylua_code_analysis::EmmyLuaAnalysis;
